@@ -208,3 +208,40 @@ func Exec(schema z.ZogSchema, validate bool, data any, dest reflect.Value, rec *
 	sort.Strings(obs.Keys)
 	return
 }
+
+// SanitizeDiff checks Issues.SanitizeMap / SanitizeList against what they are documented to
+// return for this result: the same keys, lists of the same length and order, only the messages.
+func SanitizeDiff(o *Observed) string {
+	if o.RawMap != nil {
+		san := z.Issues.SanitizeMap(o.RawMap)
+		if len(san) != len(o.RawMap) {
+			return fmt.Sprintf("SanitizeMap has %d keys, the issue map %d", len(san), len(o.RawMap))
+		}
+		for k, is := range o.RawMap {
+			ms, ok := san[k]
+			if !ok {
+				return fmt.Sprintf("SanitizeMap lacks the key %q", k)
+			}
+			if len(ms) != len(is) {
+				return fmt.Sprintf("SanitizeMap[%q] has %d messages for %d issues", k, len(ms), len(is))
+			}
+			for j := range is {
+				if ms[j] != is[j].Message {
+					return fmt.Sprintf("SanitizeMap[%q][%d] = %q, the issue's message is %q", k, j, ms[j], is[j].Message)
+				}
+			}
+		}
+	}
+	if o.RawList != nil {
+		ms := z.Issues.SanitizeList(o.RawList)
+		if len(ms) != len(o.RawList) {
+			return fmt.Sprintf("SanitizeList has %d messages for %d issues", len(ms), len(o.RawList))
+		}
+		for j := range o.RawList {
+			if ms[j] != o.RawList[j].Message {
+				return fmt.Sprintf("SanitizeList[%d] = %q, the issue's message is %q", j, ms[j], o.RawList[j].Message)
+			}
+		}
+	}
+	return ""
+}
